@@ -4,6 +4,7 @@ from . import rule
 from .. import util as U
 from ..pyir import AnalysisError, unparse
 from .. import oracle
+from . import wire as _wire
 from .snapshot import rebuild_func
 from .wire import decorator_inner
 
@@ -403,13 +404,15 @@ def r_queue_locked(ctx):
     ctx.require(n_acc >= 4, 'deque accesses not found')
     # tick callback list
     lst = lk = None
-    for n in ast.walk(R.init.node):
-        if isinstance(n, ast.Assign):
-            a = P.self_attr(n.targets[0], R.init.self_name)
-            if a and 'TickCallbacks' in a and isinstance(n.value, ast.List):
-                lst = a
-            elif a and 'TickCallbacks' in a and 'Lock' in unparse(n.value):
-                lk = a
+    reg = P.lookup_method(R.S, 'addOnTickCallback')         # public registration API: appends to the list under the lock
+    if reg is not None:
+        for n in ast.walk(reg.node):
+            if isinstance(n, ast.Call) and isinstance(n.func, ast.Attribute) and n.func.attr == 'append' and P.self_attr(n.func.value, reg.self_name):
+                lst = P.self_attr(n.func.value, reg.self_name)
+            if isinstance(n, ast.With):
+                for it in n.items:
+                    if P.self_attr(it.context_expr, reg.self_name):
+                        lk = P.self_attr(it.context_expr, reg.self_name)
     if lst and lk:
         for m in P.methods_of(R.S):
             if m is R.init:
@@ -543,11 +546,43 @@ def r_atomic_publish(ctx):
 
 # ----------------------------------------------------------------------------- C14
 def transport_parts(ctx):
+    """TCPTransport and its internal roles, found by what the methods do (their private names are free to change):
+    incoming = the handshake handler (compares its message with 'readonly'); on_disc = the method bound with
+    setOnDisconnectedCallback; dial = the method that calls <connection>.connect(..); should_connect = the predicate
+    comparing the two endpoint addresses"""
     P = ctx.P
     T = P.cls('TCPTransport')
-    for nm in ('_onIncomingMessageReceived', 'dropNode', '_shouldConnect', 'addNode', 'send', '_onDisconnected'):
+    cached = T.__dict__.get('roles')
+    if cached:
+        return T
+    for nm in ('dropNode', 'addNode', 'send'):          # public Transport interface
         if nm not in T.methods:
             raise AnalysisError('TCPTransport.%s gone' % nm)
+    roles = {}
+    for m in P.methods_of(T):
+        sn = m.self_name
+        for n in ast.walk(m.node):
+            if isinstance(n, ast.Compare) and len(n.ops) == 1:
+                sides = [n.left, n.comparators[0]]
+                if len(m.params) >= 3 and any(isinstance(x, ast.Constant) and x.value == 'readonly' for x in sides) \
+                        and any(isinstance(x, ast.Name) and x.id == m.params[-1] for x in sides):
+                    roles.setdefault('incoming', m)
+                if all(isinstance(x, ast.Attribute) and x.attr == 'address' for x in sides):
+                    roles.setdefault('should_connect', m)
+            if isinstance(n, ast.Call) and isinstance(n.func, ast.Attribute):
+                if n.func.attr == 'connect' and len(n.args) == 2 and not P.self_attr(n.func, sn):
+                    roles.setdefault('dial', m)
+                if n.func.attr == 'setOnDisconnectedCallback' and n.args:
+                    a = n.args[0]
+                    if isinstance(a, ast.Call) and unparse(a.func).endswith('partial') and a.args:
+                        a = a.args[0]
+                    nm = P.self_attr(a, sn)
+                    if nm and nm in T.methods:
+                        roles.setdefault('on_disc', T.methods[nm])
+    for k in ('incoming', 'should_connect', 'on_disc'):
+        if k not in roles:
+            raise AnalysisError('TCPTransport: role `%s` not found' % k)
+    T.roles = roles
     return T
 
 
@@ -556,7 +591,7 @@ def transport_parts(ctx):
 def r_attribution(ctx):
     P = ctx.P
     T = transport_parts(ctx)
-    f = T.methods['_onIncomingMessageReceived']
+    f = T.roles['incoming']
     ex = U.explorer(ctx, f)
     res = U.full_run(ctx, f)
     cfg = ex.cfg
@@ -684,7 +719,7 @@ def r_drop_teardown(ctx):
     P = ctx.P
     T = transport_parts(ctx)
     f = T.methods['dropNode']
-    inc = T.methods['_onIncomingMessageReceived']
+    inc = T.roles['incoming']
     msg = inc.params[2]
     table = (_keyed_tables(P, inc, msg) or [None])[-1]
     send = T.methods['send']
@@ -693,6 +728,13 @@ def r_drop_teardown(ctx):
     ex = U.explorer(ctx, f)
     cfg = ex.cfg
     node = f.params[1]
+    # member sets: the collections addNode() adds its node to
+    addn = T.methods['addNode']
+    member_sets = set(P.self_attr(c.func.value, addn.self_name) for c in P.calls_in(addn)
+                      if isinstance(c.func, ast.Attribute) and c.func.attr == 'add' and c.args and isinstance(c.args[0], ast.Name) and c.args[0].id == addn.params[1]) - {None}
+    # ... and the set the handshake handler adds read-only peers to
+    member_sets |= set(P.self_attr(c.func.value, inc.self_name) for c in P.calls_in(inc) if isinstance(c.func, ast.Attribute) and c.func.attr == 'add') - {None}
+    ctx.require(member_sets, 'addNode adds its node to no member set')
 
     def ev(n):
         out = []
@@ -706,7 +748,7 @@ def r_drop_teardown(ctx):
                 out.append('forget-address')
             if c.func.attr == 'disconnect':
                 out.append('disconnect')
-            if c.func.attr in ('discard', 'remove') and a and 'odes' in a and 'revent' not in a:
+            if c.func.attr in ('discard', 'remove') and a and a in member_sets:
                 out.append('remove-member')
         if isinstance(n.ast, ast.Delete):
             for t in n.ast.targets:
@@ -740,7 +782,7 @@ def r_drop_teardown(ctx):
     # no reconnect is triggered by the disconnect inside dropNode
     inst = 'dropNode prevents the automatic reconnect while disconnecting'
     ctx.tick()
-    sc = T.methods['_shouldConnect']
+    sc = T.roles['should_connect']
     prevent = None
     for n in ast.walk(sc.node):
         if isinstance(n, ast.Compare) and isinstance(n.ops[0], ast.NotIn):
@@ -761,7 +803,7 @@ def r_drop_teardown(ctx):
 def r_dial_order(ctx):
     P = ctx.P
     T = transport_parts(ctx)
-    f = T.methods['_shouldConnect']
+    f = T.roles['should_connect']
     cmps = [n for n in ast.walk(f.node) if isinstance(n, ast.Compare) and len(n.ops) == 1 and all(isinstance(x, ast.Attribute) and x.attr == 'address' for x in (n.left, n.comparators[0]))]
     inst = 'dial predicate is a strict order on the two addresses'
     ctx.tick()
@@ -774,7 +816,7 @@ def r_dial_order(ctx):
     else:
         ctx.violation('TCPTransport._shouldConnect:not-strict-order', f.loc(), 'the dial predicate is not a single strict comparison of the two addresses (both or neither endpoint would dial)', instance=inst)
     # a connection is (re)dialled only when none is live
-    cs = T.methods.get('_connectIfNecessarySingle')
+    cs = T.roles.get('dial')
     if cs is not None:
         ex = U.explorer(ctx, cs)
         cfg = ex.cfg
@@ -787,7 +829,7 @@ def r_dial_order(ctx):
             for fs in cres.facts_at(c.id):
                 no_live = any((l[0] == 'opaque' and not l[2] and ' in self.' in l[1]) or
                               (l[0] == 'eq' and any(t.key == 'CONNECTION_STATE.DISCONNECTED' for t in (l[1], l[2]))) for l in fs)
-                should = any(l[0] == 'truthy' and l[2] and '_shouldConnect' in l[1].key for l in fs)
+                should = any(l[0] == 'truthy' and l[2] and (T.roles['should_connect'].name + '(') in l[1].key for l in fs)
                 if not (no_live and should):
                     okd = False
         if okd:
@@ -866,7 +908,7 @@ def r_silent_timeout(ctx):
             for g in reach:
                 gcfg = U.explorer(ctx, g).cfg
                 socks = [n.id for n in gcfg.nodes if n.kind in ('stmt', 'cond') and n.ast is not None and any(isinstance(c, ast.Call) and isinstance(c.func, ast.Attribute) and c.func.attr == 'send'
-                                                                                                          and 'socket' in unparse(c.func.value) for c in ast.walk(n.ast))]
+                                                                                                          and P.self_attr(c.func.value, g.self_name) == _wire.conn_attrs(ctx)[0] for c in ast.walk(n.ast))]
             ctx.ok(inst, send.loc(), 'call graph: %s reaches %s' % (root.qualname, checker.qualname))
         else:
             ctx.violation('TcpConnection.send:no-timeout-check-on-send', send.loc(),
@@ -889,18 +931,14 @@ def r_silent_timeout(ctx):
 def r_readonly_id_unique(ctx):
     P = ctx.P
     T = transport_parts(ctx)
-    f = T.methods['_onIncomingMessageReceived']
+    f = T.roles['incoming']
+    # the counter: the attribute the handshake handler increments (its value names the read-only peer)
     counter = None
     for n in ast.walk(f.node):
-        if isinstance(n, ast.Call) and unparse(n.func) in ('Node', 'str'):
-            for x in ast.walk(n):
-                a = P.self_attr(x, f.self_name)
-                if a and 'ounter' in a:
-                    counter = a
-    if counter is None:
-        for n in ast.walk(f.node):
-            if isinstance(n, ast.AugAssign) and P.self_attr(n.target, f.self_name):
-                counter = P.self_attr(n.target, f.self_name)
+        if isinstance(n, ast.AugAssign) and P.self_attr(n.target, f.self_name):
+            counter = P.self_attr(n.target, f.self_name)
+        elif isinstance(n, ast.Assign) and U.increment_amount(P, f, n, P.self_attr(n.targets[0], f.self_name) or '') is not None:
+            counter = P.self_attr(n.targets[0], f.self_name)
     ctx.require(counter, 'counter naming read-only peers not found')
     n = 0
     for m in P.methods_of(T):
@@ -943,7 +981,7 @@ def r_reconnect_wiring(ctx):
         ctx.expect_min(1)
         return
     # (2) the tick callback reaches connect() for every member
-    cs = T.methods.get('_connectIfNecessarySingle')
+    cs = T.roles.get('dial')
     reach = P.reachable_funcs([tickcb], follow_field=False)
     inst = 'every tick dials members without a live connection'
     ctx.tick()
@@ -957,7 +995,7 @@ def r_reconnect_wiring(ctx):
     else:
         ctx.violation('TCPTransport:tick-does-not-dial', tickcb.loc(), 'the tick callback does not loop over the member set calling the dial routine', instance=inst)
     # (3) a lost member connection is reported and re-dialled
-    od = T.methods['_onDisconnected']
+    od = T.roles['on_disc']
     ex = U.explorer(ctx, od)
     cfg = ex.cfg
 
@@ -982,7 +1020,7 @@ def r_reconnect_wiring(ctx):
     else:
         ctx.violation('TCPTransport._onDisconnected:no-report-or-redial', od.loc(), 'on a lost connection the transport does not both report the member as disconnected and re-dial it (outcomes %s)' % sorted(outcomes), instance=inst)
     # (4) incoming: registered before reported
-    inc = T.methods['_onIncomingMessageReceived']
+    inc = T.roles['incoming']
     icfg = U.explorer(ctx, inc).cfg
     regs = [n.id for n in icfg.nodes if n.kind == 'stmt' and isinstance(n.ast, ast.Assign) and isinstance(n.ast.targets[0], ast.Subscript) and P.self_attr(n.ast.targets[0].value, inc.self_name)
             and isinstance(n.ast.value, ast.Name) and n.ast.value.id == inc.params[1]]
